@@ -1,8 +1,116 @@
-import Pycoin.Model.Curve
-namespace Pycoin.Curve
+import Pycoin.Proofs.Group
+/-!
+C02 — elliptic-curve arithmetic is the group law.  Property theorems (helper lemmas: `Proofs/Field.lean`,
+`Proofs/Group.lean`).
 
-/-- infinity is a left identity of `Curve.add`, whatever the other operand -/
-theorem C02_add_inf_left (c : CurveParams) (P : Pt) : add c none P = .ok P := by
-  cases P <;> rfl
+Setting: `c : CurveParams` with `[Good c]` (`p` prime, `Δ = −16(4a³+27b²) ≠ 0` in `ZMod p`),
+`W c` the curve `y² = x³ + ax + b` over `ZMod p`, `(W c).Point` Mathlib's group of nonsingular points,
+`toPoint c : Pt → (W c).Point` the group element a coordinate pair denotes, `OnCurve c P` = `contains_point`,
+`Reduced c P` = coordinates in `[0, p)`.
+-/
+namespace Pycoin.Curve
+open Pycoin
+
+/-! ## (a) inverse_mod -/
+
+/-- `Curve.inverse_mod(a, m)` with `gcd(a, m) = 1`, `m > 1`: the Euclid loop terminates within the fuel the model
+gives it (no `outOfFuel`), the `assert d == 1` holds, the result lies in `[1, m−1]` and `a·result ≡ 1 (mod m)`. -/
+theorem C02_inverseMod_correct (a m : Int) (hm : 1 < m) (hg : Int.gcd a m = 1) :
+    ∃ r, inverseMod a m = .ok r ∧ 1 ≤ r ∧ r < m ∧ (a * r) % m = 1 :=
+  inverseMod_spec a m hm hg
+
+/-- over a prime modulus it is the field inverse -/
+theorem C02_inverseMod_field (p : Nat) [Fact p.Prime] (a : Int) (ha : (a : ZMod p) ≠ 0) :
+    ∃ r, inverseMod a (p : Int) = .ok r ∧ 1 ≤ r ∧ r < p ∧ (r : ZMod p) = (a : ZMod p)⁻¹ :=
+  inverseMod_prime p a ha
+
+example : inverseMod (-5) 17 = .ok 10 := by decide
+
+variable (c : CurveParams) [Good c]
+
+/-! ## (b) addition -/
+
+/-- `Curve.add` refines Mathlib's group law: for on-curve operands — unreduced or negative coordinates allowed,
+infinity allowed, `P = Q`, `P = −Q`, `y = 0` included — it never raises, the sum is on the curve, denotes
+`toPoint P + toPoint Q`, and every computed sum (both operands affine) has coordinates in `[0, p)`. -/
+theorem C02_add_refines (P Q : Pt) (hP : OnCurve c P) (hQ : OnCurve c Q) :
+    ∃ R, add c P Q = .ok R ∧ OnCurve c R ∧ toPoint c R = toPoint c P + toPoint c Q ∧
+      ((P ≠ none → Q ≠ none → Reduced c R) ∧ (Reduced c P → Reduced c Q → Reduced c R)) :=
+  add_refines c P Q hP hQ
+
+/-- closure: the sum of two curve points is a curve point (no exception) -/
+theorem C02_add_closed (P Q : Pt) (hP : OnCurve c P) (hQ : OnCurve c Q) :
+    ∃ R, add c P Q = .ok R ∧ containsPoint c R = true := by
+  obtain ⟨R, h1, h2, -⟩ := add_refines c P Q hP hQ
+  exact ⟨R, h1, h2⟩
+
+/-- commutativity: both orders denote the same group element; for reduced operands the results are the same
+coordinate pair -/
+theorem C02_add_comm (P Q : Pt) (hP : OnCurve c P) (hQ : OnCurve c Q) :
+    ∃ R R', add c P Q = .ok R ∧ add c Q P = .ok R' ∧ toPoint c R = toPoint c R' ∧
+      (Reduced c P → Reduced c Q → R = R') := by
+  obtain ⟨R, h1, h2, h3, -, h4⟩ := add_refines c P Q hP hQ
+  obtain ⟨R', h1', h2', h3', -, h4'⟩ := add_refines c Q P hQ hP
+  have : toPoint c R = toPoint c R' := by rw [h3, h3', add_comm]
+  exact ⟨R, R', h1, h1', this, fun rP rQ => toPoint_inj c h2 h2' (h4 rP rQ) (h4' rQ rP) this⟩
+
+/-- associativity: `(P + Q) + R` and `P + (Q + R)` never raise and denote the same group element; for reduced
+operands they are the same coordinate pair -/
+theorem C02_add_assoc (P Q R : Pt) (hP : OnCurve c P) (hQ : OnCurve c Q) (hR : OnCurve c R) :
+    ∃ S U T U', add c P Q = .ok S ∧ add c S R = .ok U ∧ add c Q R = .ok T ∧ add c P T = .ok U' ∧
+      toPoint c U = toPoint c U' ∧ (Reduced c P → Reduced c Q → Reduced c R → U = U') := by
+  obtain ⟨S, s1, s2, s3, -, s4⟩ := add_refines c P Q hP hQ
+  obtain ⟨U, u1, u2, u3, -, u4⟩ := add_refines c S R s2 hR
+  obtain ⟨T, t1, t2, t3, -, t4⟩ := add_refines c Q R hQ hR
+  obtain ⟨U', v1, v2, v3, -, v4⟩ := add_refines c P T hP t2
+  have : toPoint c U = toPoint c U' := by rw [u3, s3, v3, t3, add_assoc]
+  exact ⟨S, U, T, U', s1, u1, t1, v1, this,
+    fun rP rQ rR => toPoint_inj c u2 v2 (u4 (s4 rP rQ) rR) (v4 rP (t4 rQ rR)) this⟩
+
+omit [Good c] in
+/-- infinity is the identity, on both sides, for every operand -/
+theorem C02_add_zero (P : Pt) : add c P none = .ok P ∧ add c none P = .ok P := by
+  cases P <;> exact ⟨rfl, rfl⟩
+
+/-- `P + (−P) = ∞` with `−P = (x, p − y)` as `Point.__neg__` computes it (also for `y = 0`, where `−P = (x, p)`) -/
+theorem C02_add_neg (x y : Int) (h : containsXY c x y = true) :
+    neg c (some (x, y)) = .ok (some (x, c.p - y)) ∧ add c (some (x, y)) (some (x, c.p - y)) = .ok none := by
+  obtain ⟨hn, hc, ht⟩ := neg_refines c h
+  obtain ⟨R, h1, h2, h3, -⟩ := add_refines c (some (x, y)) (some (x, c.p - y)) h hc
+  refine ⟨hn, ?_⟩
+  rw [h1, toPoint_eq_zero c h2 (by rw [h3, ht, add_neg_cancel])]
+
+/-- negation denotes the group inverse -/
+theorem C02_neg_refines (x y : Int) (h : containsXY c x y = true) :
+    ∃ N, neg c (some (x, y)) = .ok N ∧ OnCurve c N ∧ toPoint c N = - toPoint c (some (x, y)) :=
+  ⟨_, (neg_refines c h).1, (neg_refines c h).2.1, (neg_refines c h).2.2⟩
+
+/-! ## (c) scalar multiplication -/
+
+/-- `Curve.multiply(P, e)` on a curve with an order `n` such that `n • P = ∞`: for every integer `e` — zero,
+negative, `≥ n` — the `(e, 3e)` ladder never raises, never runs out of fuel, and returns `e • P`. -/
+theorem C02_multiply_correct (P : Pt) (hP : OnCurve c P) (e : Int) (hn0 : c.n ≠ 0)
+    (hn : (c.n : Int) • toPoint c P = 0) :
+    ∃ R, multiply c P e = .ok R ∧ OnCurve c R ∧ toPoint c R = e • toPoint c P :=
+  multiply_refines c P hP e (fun _ => hn) (fun h => absurd h hn0)
+
+/-- the order-less variant (`order=None`): every `e ≥ 0` -/
+theorem C02_multiply_orderless (P : Pt) (hP : OnCurve c P) (e : Int) (hn0 : c.n = 0) (he : 0 ≤ e) :
+    ∃ R, multiply c P e = .ok R ∧ OnCurve c R ∧ toPoint c R = e • toPoint c P :=
+  multiply_refines c P hP e (fun h => absurd hn0 h) (fun _ => he)
+
+omit [Good c] in
+/-- … and a negative scalar on an order-less curve is an `AssertionError` (outside the property's quantifier) -/
+theorem C02_multiply_orderless_negative (P : Pt) (hP : P ≠ none) (e : Int) (hn0 : c.n = 0) (he : e < 0) :
+    multiply c P e = .error .assertion :=
+  multiply_negative_orderless c P hP e hn0 he
+
+/-- `order * P = ∞` for every point the order annihilates.  PARTIAL: the property says "for every point of the
+curve", i.e. `#E(F_p) = n`, a point count not provable here; the extra hypothesis is `n • P = ∞`
+(it holds for every `P ∈ ⟨G⟩` by `C02_order_G_*`). -/
+theorem C02_order_mul_partial (P : Pt) (hP : OnCurve c P) (hn0 : c.n ≠ 0) (hn : (c.n : Int) • toPoint c P = 0) (k : Int) :
+    multiply c P (k * c.n) = .ok none := by
+  obtain ⟨R, h1, h2, h3⟩ := C02_multiply_correct c P hP (k * c.n) hn0 hn
+  rw [h1, toPoint_eq_zero c h2 (by rw [h3, mul_zsmul, hn, zsmul_zero])]
 
 end Pycoin.Curve
